@@ -1216,7 +1216,7 @@ def write_dataframe_to_tsfile(
         space_separated_class_label = " ".join(str(label) for label in class_label)
         file.write(f"@classLabel true {space_separated_class_label}\n")
     else:
-        file.write("@class_label false\n")
+        file.write("@classLabel false\n")
 
     # begin writing the core data for each case
     # which are the series and the class value list if there is any
